@@ -23,6 +23,10 @@ From Coq Require Import Lia.
 From Verif Require Import model.RingBuffer model.RingBufferSpec
      proofs.RingBufferGaps proofs.RingBufferInv proofs.RingBufferObs proofs.RingBufferDecl.
 
+(* T-tie: the index wrapping the model uses is OrderedRingBuffer.wrap as translated from /repo *)
+Theorem C09_wrap_as_translated : forall c i, wrap c i = i mod c.
+Proof. exact wrap_mod. Qed.
+
 (* ------------------------------------------------------------------ stage 1: update + gap list *)
 Theorem C09_init : forall cs, cs <> [] -> Inv (init_rb cs) spec_init.
 Proof. exact Inv_init. Qed.
@@ -161,6 +165,7 @@ Example C09_nonvacuous :
   spec_update 4 (spec_run 4 spec_init hist) 1 (Some 99) = None.
 Proof. cbv zeta. split; [discriminate|]. vm_compute. repeat split; reflexivity. Qed.
 
+Print Assumptions C09_wrap_as_translated.
 Print Assumptions C09_init.
 Print Assumptions C09_same_rejects.
 Print Assumptions C09_refines.
